@@ -208,7 +208,8 @@ def run_networkdays(shard, ctx):
     nt = 0
     for li, lay in enumerate(HOL_LAYOUTS):
         cells = {'A4': dt.datetime(2024, 1, 1), 'B4': dt.datetime(2024, 1, 31), 'C4': '=NETWORKDAYS(A4,B4)',
-                 'D4': '=NETWORKDAYS(A4,B4,H1:H12)', 'E4': '=NETWORKDAYS(A4;B4;H1:I12)'}
+                 'D4': '=NETWORKDAYS(A4,B4,H1:H12)', 'E4': '=NETWORKDAYS(A4;B4;H1:I12)', 'F4': '=NETWORKDAYS(A4,B4,H:H)', 'G4': '=NETWORKDAYS(A4,B4,$H:$I)',
+                 'A12': 0}      # A12 keeps the used range at 12 rows whatever the holiday layout: H:H always has 12 rows
         for k, v in lay.items():
             cells[f'H{k}'] = v
         cells['I3'] = dt.datetime(2024, 1, 2)
@@ -231,10 +232,25 @@ def run_networkdays(shard, ctx):
                 a, b = b, a
             if 'pair' in shard:
                 a, b = shard['pair']
-            outs = book.values(0, ['C4', 'D4', 'E4'], [(0, 'A4', a), (0, 'B4', b)])
-            r.ev(3)
-            exps = (evalr.networkdays(a, b, []), evalr.networkdays(a, b, hol), evalr.networkdays(a, b, hol2))
-            bad = [(c, o.brief(), e) for c, o, e in zip(('2 args', 'H1:H12', 'H1:I12'), outs, exps) if not outcome_matches(o, [e])]
+            # every third point also WRITES holidays through overrides: into a holiday cell that was blank in the workbook, over an
+            # existing one, and a non-date - the holiday list is the current content of the range, bounded or whole-column
+            ov = [(0, 'A4', a), (0, 'B4', b)]
+            hol_now, hol2_now = list(hol), list(hol2)
+            if j % 3 == 0:
+                lo, hi = (a, b) if a <= b else (b, a)
+                extra = lo + dt.timedelta(days=rng.randrange(0, max(1, (hi - lo).days + 1)))
+                extra = dt.datetime(extra.year, extra.month, extra.day)
+                blank_rows = [k for k in range(1, 13) if k not in lay]
+                row_ = rng.choice(blank_rows) if blank_rows and rng.random() < 0.7 else rng.choice(list(lay) or [1])
+                ov.append((0, f'H{row_}', extra))
+                hol_now = [v for k, v in lay.items() if isinstance(v, dt.datetime) and k != row_] + [extra]
+                hol2_now = hol_now + [dt.datetime(2024, 1, 2)]
+                r.count('networkdays_holiday_overrides')
+            outs = book.values(0, ['C4', 'D4', 'E4', 'F4', 'G4'], ov)
+            r.ev(5)
+            exps = (evalr.networkdays(a, b, []), evalr.networkdays(a, b, hol_now), evalr.networkdays(a, b, hol2_now), evalr.networkdays(a, b, hol_now),
+                    evalr.networkdays(a, b, hol2_now))
+            bad = [(c, o.brief(), e) for c, o, e in zip(('2 args', 'H1:H12', 'H1:I12', 'H:H', '$H:$I'), outs, exps) if not outcome_matches(o, [e])]
             if bad:
                 report(r, ID, None, {'fn': 'NETWORKDAYS', 'start': a, 'end': b, 'layout': li}, bad, None, monitor='calendar-closed-form')
             if abs((b - a).days) >= 5:
